@@ -203,6 +203,7 @@ int main(int argc, char** argv) {
 
   // ---- build the DAG family
   std::vector<Expr> E;
+  std::vector<size_t> famStart;  // first index of each family in construction order
   auto leafNode = [](int i) {
     Node n;
     n.kind = 0;
@@ -235,6 +236,7 @@ int main(int argc, char** argv) {
   };
   const int leafSet[6] = {0, 1, 2, 3, 5, 4};  // quick uses tet,cube,octa,L ; thorough adds far and ring
   auto LF = [&](int k) { return leafSet[k]; };
+  famStart.push_back(E.size());
   // trees with 2 ops: (a o b) o c ; a o (b o c)
   for (int a = 0; a < nl; ++a)
     for (int b = 0; b < nl; ++b)
@@ -248,6 +250,7 @@ int main(int argc, char** argv) {
             e.n = {leafNode(LF(a)), leafNode(LF(b)), leafNode(LF(c)), opNode(o1, 0, 1), opNode(o2, 2, 3)};
             E.push_back(e);
           }
+  famStart.push_back(E.size());
   // trees with 3 ops: ((a o b) o c) o d ; (a o b) o (c o d)
   for (int a = 0; a < nl; ++a)
     for (int b = a + 1; b < nl; ++b)
@@ -262,6 +265,7 @@ int main(int argc, char** argv) {
             e.n = {leafNode(LF(a)), leafNode(LF(b)), leafNode(LF(c)), leafNode(LF(d)), opNode(o1, 0, 1), opNode(o2, 2, 3), opNode(o3, 4, 5)};
             E.push_back(e);
           }
+  famStart.push_back(E.size());
   // sharing: S = a o1 b used twice (once transformed; under two different transforms; under two parents)
   for (int a = 0; a < nl; ++a)
     for (int b = 0; b < nl; ++b)
@@ -287,6 +291,7 @@ int main(int argc, char** argv) {
             E.push_back(e);
           }
         }
+  famStart.push_back(E.size());
   // transformed op nodes nested inside op nodes (collapsing must compose the transforms in the right order):
   // ((a o1 b).T1 o2 c).T2 o3 d   and   d o3 (c o2 (a o1 b).T2).T1
   for (int a = 0; a < nl; ++a)
@@ -303,6 +308,7 @@ int main(int argc, char** argv) {
             e.n = {leafNode(LF(a)), leafNode(LF(b)), leafNode(LF(c)), leafNode(LF(d)), opNode(o1, 0, 1), xfNode(2, 4), opNode(o2, 2, 5), xfNode(1, 6), opNode(o3, 3, 7)};
             E.push_back(e);
           }
+  famStart.push_back(E.size());
   // batches of three leaves / with a nested op, and transform chains
   for (int a = 0; a < nl; ++a)
     for (int b = 0; b < nl; ++b)
@@ -317,6 +323,16 @@ int main(int argc, char** argv) {
           E.push_back(e);
         }
 
+  // interleave the families round-robin: a run that is cut short by its time budget still covers every family
+  {
+    famStart.push_back(E.size());
+    std::vector<Expr> mixed;
+    mixed.reserve(E.size());
+    for (size_t k = 0; mixed.size() < E.size(); ++k)
+      for (size_t f = 0; f + 1 < famStart.size(); ++f)
+        if (famStart[f] + k < famStart[f + 1]) mixed.push_back(E[famStart[f] + k]);
+    E.swap(mixed);
+  }
   R.phase("histories", E.size(), 1, [&](uint64_t idx, Ctx& c) {
     const Expr& e = E[idx];
     std::string name = e.str(L);
